@@ -99,7 +99,7 @@ class U:
             # empty object: such a field gets an arbitrary value of its initial type (no invariant is known
             # for it), so code that starts to depend on new state is explored for every value of that state
             mod, qn, a, kw = init
-            tmp = SObj(clsname, {}, methods_, ())
+            tmp = SObj(clsname, dict(fields_ or {}), methods_, ())  # class-level attributes the sidecar names are visible
             f0 = self.load(mod, qn)
             r0 = self.call(f0, tmp, *a, **kw)
             if r0.ok:
